@@ -5,12 +5,12 @@ from ..evalprop import *
 
 PID = "C16"
 MANIFEST = {
-    "text": "Theorems about the closures obtained by loading the GENERATED text of prelude.lisp with the model reader and evaluator inside Coq: the prelude loads without error (kernel computation), and for ALL operand forms X, Y the control macros and / or / when / not and the catch / catch-all clauses of try expand to the documented forms, get-property-safe (through which every catch clause reads the kind of a signal) returns for EVERY key and EVERY value what the primitive . returns and nil whenever . signals, and and / or / when / not expand to conditionals in which each operand occurs exactly where and as often as the documentation implies (each operand evaluated at most once, the second only when needed) - proved by symbolic evaluation of the macro bodies through the derived evaluator rules. A change of prelude.lisp regenerates the text and the loaded closures, so either the computed closure no longer matches the lemma about its body or the theorem fails. The list functions (map foldl foldr reverse zip length enumerate range append concat last init apply), the variadic arithmetic and comparisons are tied to their documented results by generated calls (lists of length 0..60 of mixed elements, native / closure / variadic / fixed-arity / signalling function arguments, operands with output side effects) run in the model and on the binary and checked against independent specification functions.",
-    "note": "The unbounded ('for every list') statements for the list functions are NOT theorems yet (only the tail-loop shape shared with C07 is proved for every list); they are validated by the differential check and the specification monitors. Trusted: Coq kernel; transcription of the evaluator; prelude text generated from the source.",
+    "text": "Theorems about the closures obtained by loading the GENERATED text of prelude.lisp with the model reader and evaluator inside Coq: the prelude loads without error (kernel computation), and for ALL operand forms X, Y the control macros and / or / when / not and the catch / catch-all clauses of try expand to the documented forms, the list functions length, range, foldl, reverse, map and zip are proved for EVERY list - any length, any elements, and for foldl and map every function whose applications evaluate - by induction over the list through the evaluator's tail-call rules, with the result AND the fact that the loop runs at the depth it was called at (fuel linear in the length); get-property-safe (through which every catch clause reads the kind of a signal) returns for EVERY key and EVERY value what the primitive . returns and nil whenever . signals, and and / or / when / not expand to conditionals in which each operand occurs exactly where and as often as the documentation implies (each operand evaluated at most once, the second only when needed) - proved by symbolic evaluation of the macro bodies through the derived evaluator rules. A change of prelude.lisp regenerates the text and the loaded closures, so either the computed closure no longer matches the lemma about its body or the theorem fails. The list functions (map foldl foldr reverse zip length enumerate range append concat last init apply), the variadic arithmetic and comparisons are tied to their documented results by generated calls (lists of length 0..60 of mixed elements, native / closure / variadic / fixed-arity / signalling function arguments, operands with output side effects) run in the model and on the binary and checked against independent specification functions.",
+    "note": "The 'for every list' statements are theorems for length, range, foldl, reverse, map and zip; for enumerate, last, init, foldr, append, concat, apply and the variadic arithmetic they are validated by the differential check and the specification monitors (lists up to 20000 elements), not proved. Trusted: Coq kernel; transcription of the evaluator; prelude text generated from the source.",
     "technique": "Coq symbolic evaluation of prelude macro bodies for all operands + kernel computation on the generated prelude + differential check against specification functions",
 }
 TARGETS = ["Properties/C16.v", "Eval/PreludeState.v"]
-IMPORTS = ["Eval.EvalRules", "Eval.PreludeState", "Eval.PreludeProofs", "Eval.CatchProofs", "Properties.C16"]
+IMPORTS = ["Eval.EvalRules", "Eval.PreludeState", "Eval.PreludeProofs", "Eval.CatchProofs", "Eval.LengthProofs", "Eval.RangeProofs", "Eval.FoldProofs", "Eval.MapProofs", "Eval.ZipProofs", "Properties.C16"]
 THEOREMS = [
     ("C16_prelude_loads", "prelude_ok = true /\\ repl_ok = true /\\ debugger_ok = true"),
     ("C16_and_expansion", "forall X Y, macro_expands_to (s \"and\") [X; Y] (vec_to_list [vsym \"if\"; X; Y; nil_value])"),
@@ -22,6 +22,14 @@ THEOREMS = [
     ("C16_get_property_safe_value", "forall key pl v, dot_res pl key = ROk v -> gps_statement key pl v"),
     ("C16_get_property_safe_signal", "forall key pl sg, dot_res pl key = RSig sg -> gps_statement key pl nil_value"),
     ("C16_dot_is_the_primitive", "forall f st pl key env d, call_native (S f) st (s \".\") [pl; key] env d = (st, dot_res pl key)"),
+    ("C16_length", "forall xs, in_i64 (Z.of_nat (List.length xs)) = true -> length_statement xs"),
+    ("C16_range_nonneg", "forall mv k, getv mv = VNum (Z.of_nat k) -> in_i64 (Z.of_nat k) = true -> range_statement mv (upto k nil_value)"),
+    ("C16_range_negative", "forall mv m, getv mv = VNum m -> (m < 0)%Z -> in_i64 (m - 1)%Z = true -> range_statement mv nil_value"),
+    ("C16_foldl", "forall fv step K, (4 <= K)%nat -> (forall acc x r d, (d + 3 <= MAXD)%N -> evals_to K fl_step (fl_env fv acc (VCons x r)) (d + 1)%N (step acc x)) -> forall tl, is_nil tl = true -> forall xs acc g st d, has_prelude st -> (d + 3 <= MAXD)%N -> exists st', eval_loop (2 * List.length xs + K + 4 + g)%nat st fl_body (fl_env fv acc (onto xs tl)) pm d = (st', ROk (fold_left step xs acc)) /\\ has_prelude st'"),
+    ("C16_reverse", "forall xs tl, is_nil tl = true -> reverse_statement xs tl"),
+    ("C16_map", "forall fv g K, (2 <= K)%nat -> (forall x r acc d, (d + 4 <= MAXD)%N -> evals_to K mm_app (mm_env fv (VCons x r) acc) (d + 1 + 1)%N (g x)) -> forall tl xs st d, is_nil tl = true -> has_prelude st -> (d + 5 <= MAXD)%N -> exists fuel st' r, eval_loop fuel st mp_body (mp_env fv (onto xs tl)) pm d = (st', ROk r) /\\ has_prelude st' /\\ strip r = strip (vec_to_list (map g xs))"),
+    ("C16_zip", "forall tl1 tl2 xs ys st d, is_nil tl1 = true -> is_nil tl2 = true -> has_prelude st -> (d + 5 <= MAXD)%N -> exists fuel st' r, eval_loop fuel st zp_body (zp_env (onto xs tl1) (onto ys tl2)) pm d = (st', ROk r) /\\ has_prelude st' /\\ strip r = strip (vec_to_list (map pair_of (combine xs ys)))"),
+    ("C16_map_instance", "forall xs st d, has_prelude st -> (d + 5 <= MAXD)%N -> exists fuel st' r, eval_loop fuel st mp_body (mp_env list_native (vec_to_list xs)) pm d = (st', ROk r) /\\ has_prelude st' /\\ strip r = strip (vec_to_list (map (fun x => vec_to_list [x]) xs))"),
 ]
 
 def lst(xs):
@@ -87,6 +95,23 @@ def catch_cases():
         cases.append((f"(get-property-safe 'kind {expr})", kind if kind else "()"))
     return cases
 
+def long_list_cases(n):
+    """the documented results hold for lists of ANY length: far beyond the recursion limit of 1024
+    (the definitions are accumulator-style tail recursions; one level of depth per element would overflow)"""
+    r = f"(range {n})"
+    return [
+        (f"(length (map (lambda (x) (add x x)) {r}))", str(n)),
+        (f"(last (map (lambda (x) (add x x)) {r}))", str(2 * (n - 1))),
+        (f"(car (map (lambda (x) (add x 1)) {r}))", "1"),
+        (f"(length {r})", str(n)), (f"(last {r})", str(n - 1)), (f"(car (reverse {r}))", str(n - 1)), (f"(length (reverse {r}))", str(n)),
+        (f"(foldl add 0 {r})", str(n * (n - 1) // 2)), (f"(foldl (lambda (acc x) (add acc 1)) 0 {r})", str(n)),
+        (f"(length (zip {r} {r}))", str(n)), (f"(car (last (zip {r} {r})))", str(n - 1)),
+        (f"(length (enumerate {r}))", str(n)), (f"(length (append {r} {r}))", str(2 * n)), (f"(length (concat {r} {r} {r}))", str(3 * n)),
+        (f"(length (init {r}))", str(n - 1)), (f"(apply + {r})", str(n * (n - 1) // 2)),
+        (f"(foldr (lambda (x acc) (add x acc)) 0 {r})", str(n * (n - 1) // 2)), (f"(car (foldr (lambda (x acc) (cons x acc)) nil {r}))", "0"),
+        (f"(length (unzip-list {r}))", None),
+    ]
+
 def effect_cases():
     """control macros: each operand at most once, only when needed - observed through the output"""
     o = lambda tag, v: f"(block (output \"{tag}\") {v})"
@@ -114,6 +139,8 @@ def run(tier, seed):
     for i in range(12 if tier == "quick" else 300):
         cases += spec_cases(rng, 40 if tier == "quick" else 60)
     cases += catch_cases()
+    cases += long_list_cases(1100)       # just beyond the recursion limit: model and binary
+    long_cases = long_list_cases(2500 if tier == "quick" else 20000)    # far beyond it: binary only (the model would need minutes of fuel)
     eff = effect_cases()
     misc = ["(map car '((1) (2)))", "(map (lambda (x & r) r) '(1 2))", "(map add '(1 2))", "(map (lambda (x) (car x)) '(1))", "(foldl add 0 '(1 a 2))", "(zip '(1 2 3) '(a))", "(length 5)",
             "(reverse \"abc\")", "(last nil)", "(init nil)", "(range 0)", "(apply list '(1 2))", "(apply (lambda (& xs) xs) '(1 2))", "(/ 100 5 2)", "(/ 5)", "(/)", "(-)", "(+)", "(*)",
@@ -143,6 +170,16 @@ def run(tier, seed):
             wrong += 1
             if wrong <= 3:
                 rep.violation(f"{p} does not return its documented result {exp}", {"program": p, "expected": exp, "observed": got if got is not None else ps.answers[i][:300]})
+    long_answers = run_driver_cases(evalcorr.driver_lines(["(print " + p + ")" for p, _ in long_cases]), timeout=60.0)
+    rep.evaluations += len(long_cases)
+    for (p, exp), a in zip(long_cases, long_answers):
+        if exp is None:
+            continue
+        rr = dump.split_run_answer(a)
+        t = result_tree(rr)
+        got = dump.text_of(t) if t is not None else None
+        if got != exp:
+            rep.violation(f"{p} does not return its documented result {exp}", {"program": p, "expected": exp, "observed": got if got is not None else a[:300]})
     base = len(cases)
     for j, (p, exp, out) in enumerate(eff):
         got, r = printed(base + j)
